@@ -139,6 +139,7 @@ class Runner:
                                    # have discarded their state and then ignores frames; an over-limit frame is not required to close
         self.local_open = set()
         self.sent_crypto = False
+        self.crypto_gap = False    # some CRYPTO frame was sent out of order
         self.sent_stream = False
         self.sent_reset = False
         self.multi_addr = False
@@ -303,7 +304,8 @@ class Runner:
             self._fail("bytes reachable from the connection grew by %d, more than %s%sslack %d"
                        % (g, "advertised max_data %d + " % self.adv_data if self.sent_stream else "",
                           "MAX_PENDING_CRYPTO %d + " % self.max_pending_crypto if self.sent_crypto else "", SLACK),
-                       oracle="buffer_bound", crypto=self.sent_crypto, multi_addr=self.multi_addr, streams=self.sent_stream)
+                       oracle="buffer_bound", crypto=self.sent_crypto, crypto_in_order=self.sent_crypto and not self.crypto_gap,
+                       multi_addr=self.multi_addr, streams=self.sent_stream)
 
     # -- one packet from the puppet -------------------------------------------------------
     def _frame_bytes(self, fr):
@@ -338,6 +340,7 @@ class Runner:
             off = self.crypto_base + fr[1] if fr[1] < (1 << 60) else fr[1]   # relative to the receiver's current offset
             self.min_in += [7, off, fr[2]] + list(d)
             self.sent_crypto = True
+            self.crypto_gap = True
             return F.crypto(off, d)
         if k == "P":
             self.min_in += [8, fr[1]]
